@@ -163,6 +163,10 @@ def gen_case(rng):
         delays = [0] * (n + 1)
     cons_delay = rng.choice([0, 0, 2])
     case = {'kind': kind, 'ids': ids, 'fail': fail, 'delays': delays, 'cons_delay': cons_delay}
+    if kind == 'async:gen' and n >= 2 and fail is None and rng.random() < 0.3:
+        # the consumer stops early: it takes k elements and closes the async iterator while the source still has
+        # (blocking) steps to go
+        case['stop_after'] = rng.randint(1, n - 1)
     if not kind.startswith('async') and rng.random() < 0.4:
         # the rarely used `loop=` argument: the caller's own (idle) loop drives the source, and is used for a
         # second round afterwards - it is the caller's to close, not the bridge's
@@ -238,6 +242,19 @@ def run_case(case, seed, pct=0, choices=None):
                     source = (src() if k == 'async:gen' else iter([TABLE[e] for e in ids]) if k == 'async:iter'
                               else [TABLE[e] for e in ids] if k == 'async:list' else ReIter() if k == 'async:reiter'
                               else range(len(ids)))
+                    if case.get('stop_after'):
+                        agen = A.to_async_iter(source)
+                        for _ in range(case['stop_after']):
+                            x = await agen.__anext__()
+                            res['got'].append(x)
+                            E.labels.append('g:%d' % ident(x))
+                        t0, k0 = S.vt, res['ticks']
+                        await agen.aclose()
+                        res['close_took'] = S.vt - t0
+                        res['end'] = 'closed-early'
+                        E.labels.append('gd')
+                        t.cancel()
+                        return
                     try:
                         async for x in A.to_async_iter(source):
                             res['got'].append(x)
@@ -300,6 +317,17 @@ def expected(case):
 
 
 def judge(case, r):
+    if case.get('stop_after'):
+        exp = expected(case)[:case['stop_after']]
+        if r['hung']:
+            return 'hang', f'the bridge never finished: {r["hung"]}'
+        if r['got'] != exp:
+            return 'sequence', f'consumer received {r["got"]!r} before closing early, the source starts with {exp!r}'
+        if r.get('close_took', 0) >= 1:
+            return 'blocked-loop', (f'closing the async iterator after {case["stop_after"]} element(s) blocked the event '
+                                    f'loop for {r["close_took"]} virtual seconds while the source was still blocked '
+                                    f'in its remaining steps {case["delays"][case["stop_after"]:]}')
+        return None, None
     exp = expected(case)
     same = len(r['got']) == len(exp) and all(type(a) is type(b) and a == b for a, b in zip(r['got'], exp))
     if r['hung']:
@@ -359,8 +387,10 @@ def _chunk(payload):
         out.count('kind:' + case['kind'])
         out.count('fail:' + ('none' if case['fail'] is None else 'yes'))
         out.count('len:%d' % len(case['ids']))
-        if case['kind'] in ('async:gen', 'sync:agen') and not r['hung']:
-            runs.append((case, r))
+        if case['kind'] in ('async:gen', 'sync:agen') and not r['hung'] and not case.get('stop_after'):
+            runs.append((case, r))       # (an early close by the consumer is outside the bridge model: monitor only)
+        if case.get('stop_after'):
+            out.count('consumer-closes-early')
         if len(out.samples) < 1 and len(r['labels']) > 8:
             out.sample({'case': {k: v for k, v in case.items() if k != 'schedule'}, 'labels': r['labels']})
     answers = drv.ask([model_line(c, r['labels']) for c, r in runs])
